@@ -236,6 +236,13 @@ def run(ck, replay, cfgs=None, verbose=False):
         ck.cov["b_cases_where_code_and_asbuilt_model_differ_without_touching_the_property"] = nfid
         ck.cov["b_model_divergence_samples"] = fid
         ck.cov["b_harness_wall_s"] = round(t_h, 1)
+        ck.cov["b_exhaustive"] = True
+        ck.cov["b_rule"] = ("(b) every scenario of the Unpack.tla family cfgs (spell: one entry, every name spelling of <= 3 segments from {'..','.','','a','out-evil'} "
+                            "absolute/relative + 300-byte names, types reg/dir/sym/hard; links: a link with every such TARGET spelling, alone or written through, either order; "
+                            "seq: all sequences of <= 3 (thorough also 4) entries over an alphabet of links/files/dirs incl. symlink-then-write-through-it, any order, "
+                            "every split into <= 2 layers; misc: requirer, MaxPass, big files, absent sibling, error paths) x API mode "
+                            "(UnpackSquashedFromTarball retain/ignore x log/return, UnpackSquashed retain x log/return, FromV1Image+CleanUp, FromTarball+CleanUp); "
+                            "each case = one real API run in a fresh sandbox with whole-sandbox snapshots; non-trivial = the run changed something on disk")
         if nfid:
             vf.log("[c06b] %d case(s) where the as-built model and the code differ inside the designated directory (no verdict impact):" % nfid)
             for f in fid[:6]:
